@@ -69,6 +69,21 @@ pub fn customs(name: &str, wasm: &[u8], out: &mut Vec<Json>) {
     }
 }
 
+/// C12 (API): removing ONE raw custom section by name takes out exactly the first section of that name, and asking for an absent name takes out nothing
+pub fn customs_remove_raw(name: &str, wasm: &[u8], out: &mut Vec<Json>) {
+    let a = match amod::decode(wasm) { Ok(a) => a, Err(_) => return };
+    let want = raw_customs(&a);
+    if want.is_empty() { return; }
+    let mut targets: Vec<Option<String>> = vec![None]; for k in [0usize, want.len() / 2, want.len() - 1] { targets.push(Some(want[k].0.clone())); }
+    for t in targets {
+        let tn = t.clone().unwrap_or_else(|| "a-section-name-that-does-not-occur".to_string());
+        let r = catch(|| { let mut m = Module::from_buffer(wasm).ok()?; let removed = m.customs.remove_raw(&tn).map(|s| (s.name.clone(), s.data.clone())); Some((removed, m.emit_wasm())) });
+        if let Some(Some((removed, o))) = r { if let Ok(b) = amod::decode(&o) { let got = raw_customs(&b);
+            let mut expect = want.clone(); let first = expect.iter().position(|c| c.0 == tn); let exp_removed = first.map(|i| { let c = expect.remove(i); (c.0, c.1) });
+            if removed != exp_removed || got != expect { out.push(v("customs-remove-raw-wrong", "C12", format!("{}: remove_raw({:?}) returned {:?} (expected {:?}); {} of {} remaining sections as expected", name, tn, removed.as_ref().map(|x| &x.0), exp_removed.as_ref().map(|x| &x.0), got.iter().zip(&expect).filter(|(x, y)| x == y).count(), expect.len()), wasm, String::new(), String::new())); } } }
+    }
+}
+
 /// C08: repeated emits on one Module are byte-identical; re-parsing the output and emitting again reproduces it.
 pub fn determinism(name: &str, wasm: &[u8], out: &mut Vec<Json>) {
     for pct in [false, true] {
@@ -107,7 +122,14 @@ pub fn config(name: &str, wasm: &[u8], out: &mut Vec<Json>) {
     if let Ok(a0) = amod::decode(wasm) { if !a0.code.is_empty() && a0.code.len() < 40 { if let Some(input) = crate::c10::synthesize(wasm, &a0, crate::c10::DCfg { version: 4, one_seq: false, file0: false, pair_seq: false, nested: false, two_units: false }) {
         for (gd, pct, names) in [(false, false, true), (false, true, true), (true, false, false), (true, true, true), (false, true, false)] {
             let r = catch(|| { let mut c = ModuleConfig::new(); c.generate_dwarf(gd).preserve_code_transform(pct).generate_name_section(names).generate_producers_section(false); let mut m = c.parse(&input).ok()?; amod::decode(&m.emit_wasm()).ok() }).flatten();
-            if let Some(b) = r { let has = b.customs.iter().any(|c| c.0.starts_with(".debug")); if has != gd { out.push(v("dwarf-switch-ignored", "C14", format!("{}: generate_dwarf({}) preserve_code_transform({}) generate_name_section({}): the output {} .debug sections", name, gd, pct, names, if has { "has" } else { "has no" }), &input, format!("{:?}", b.sections), String::new())); } } } } } }
+            if let Some(b) = r { let has = b.customs.iter().any(|c| c.0.starts_with(".debug")); if has != gd { out.push(v("dwarf-switch-ignored", "C14", format!("{}: generate_dwarf({}) preserve_code_transform({}) generate_name_section({}): the output {} .debug sections", name, gd, pct, names, if has { "has" } else { "has no" }), &input, format!("{:?}", b.sections), String::new())); } } }
+        // the switch does not depend on what is left of the code: with every function unexported and collected, the debug sections are still carried over
+        for gd in [true, false] {
+            let r = catch(|| { let mut c = ModuleConfig::new(); c.generate_dwarf(gd).generate_producers_section(false); let mut m = c.parse(&input).ok()?;
+                let ex: Vec<_> = m.exports.iter().map(|e| e.id()).collect(); for e in ex { m.exports.delete(e); } m.start = None; let el: Vec<_> = m.elements.iter().map(|e| e.id()).collect(); for e in el { m.elements.delete(e); }
+                passes::gc::run(&mut m); let nf = m.funcs.iter_local().count(); amod::decode(&m.emit_wasm()).ok().map(|b| (b, nf)) }).flatten();
+            if let Some((b, nf)) = r { let has = b.customs.iter().any(|c| c.0.starts_with(".debug")); if has != gd { out.push(v("dwarf-switch-ignored", "C14", format!("{}: generate_dwarf({}) after every export was removed and the GC pass left {} local functions: the output {} .debug sections", name, gd, nf, if has { "has" } else { "has no" }), &input, format!("{:?}", b.sections), String::new())); } } }
+        } } }
     let run = |names: bool, prod: bool| -> Option<AMod> { catch(|| { let mut c = ModuleConfig::new(); c.generate_name_section(names).generate_producers_section(prod); let mut m = c.parse(wasm).ok()?; amod::decode(&m.emit_wasm()).ok() }).flatten() };
     let strip = |a: &AMod, what: &str| -> Vec<(String, Vec<u8>)> { let mut v: Vec<(String, Vec<u8>)> = vec![]; for s in &a.sections { if s == &format!("custom:{}", what) { continue; } v.push((s.clone(), vec![])); } v };
     if let (Some(full), Some(no_names), Some(no_prod)) = (run(true, true), run(false, true), run(true, false)) {
@@ -304,10 +326,10 @@ pub fn names(name: &str, wasm: &[u8], obs: &Observed, synthetic: bool, out: &mut
     use wasmparser::{BinaryReader, Name, NameSectionReader};
     type NM = BTreeMap<u32, String>;
     #[derive(Default, Debug)] struct N { module: Option<String>, funcs: NM, locals: BTreeMap<u32, NM>, types: NM, tables: NM, mems: NM, globals: NM, elems: NM, data: NM }
-    let read = |a: &AMod| -> Option<N> { let c = a.customs.iter().find(|c| c.0 == "name")?; let mut n = N::default();
+    let read = |a: &AMod| -> Option<N> { if !a.customs.iter().any(|c| c.0 == "name") { return None; } let mut n = N::default(); for c in a.customs.iter().filter(|c| c.0 == "name") {
         let nm = |m: wasmparser::NameMap| -> NM { m.into_iter().filter_map(|x| x.ok()).map(|x| (x.index, x.name.to_string())).collect() };
         for s in NameSectionReader::new(BinaryReader::new(&c.1, 0, WasmFeatures::all())) { match s.ok()? { Name::Module { name, .. } => n.module = Some(name.to_string()), Name::Function(m) => n.funcs = nm(m), Name::Type(m) => n.types = nm(m), Name::Table(m) => n.tables = nm(m), Name::Memory(m) => n.mems = nm(m),
-            Name::Global(m) => n.globals = nm(m), Name::Element(m) => n.elems = nm(m), Name::Data(m) => n.data = nm(m), Name::Local(l) => { for f in l { let f = f.ok()?; n.locals.insert(f.index, nm(f.names)); } } _ => {} } } Some(n) };
+            Name::Global(m) => n.globals = nm(m), Name::Element(m) => n.elems = nm(m), Name::Data(m) => n.data = nm(m), Name::Local(l) => { for f in l { let f = f.ok()?; n.locals.insert(f.index, nm(f.names)); } } _ => {} } } } Some(n) };
     let (na, nb) = match (read(&obs.ain), read(&obs.aout)) { (Some(a), b) => (a, b.unwrap_or_default()), (None, _) => return };
     let mut bad = |what: String, o: String, e: String| out.push(v("names-not-preserved", "C13", format!("{}: {}", name, what), wasm, o, e));
     if na.module != nb.module && !(synthetic && na.module.is_none()) { bad("module name differs".into(), format!("{:?}", nb.module), format!("{:?}", na.module)); }
@@ -462,5 +484,5 @@ pub fn all_module_oracles(name: &str, wasm: &[u8], out: &mut Vec<Json>) {
     }
     // names again with synthetic names switched on: every real name of the input stays where it was
     { let mut scfg = ModuleConfig::new(); scfg.generate_producers_section(false).generate_synthetic_names_for_anonymous_items(true); if let Some(Ok(obs)) = catch(|| observe(wasm, &mut scfg)) { names(&format!("{} (synthetic names on)", name), wasm, &obs, true, out); } }
-    customs(name, wasm, out); determinism(name, wasm, out); config(name, wasm, out); gc(name, wasm, out); emit_maps_after_import_move(name, wasm, out); emit_maps_after_import_added(name, wasm, out);
+    customs(name, wasm, out); customs_remove_raw(name, wasm, out); determinism(name, wasm, out); config(name, wasm, out); gc(name, wasm, out); emit_maps_after_import_move(name, wasm, out); emit_maps_after_import_added(name, wasm, out);
 }
